@@ -316,3 +316,123 @@ func init() {
 		Rule: "one snapshot call (GetWithMap / Keys / Values / Range / All) over 5..700 keys in one thread against one atomic bulk writer call (Map setting every key, Clear, Delete of half the keys, Map deleting half) in another, under generated schedules of the lock-level scheduling points; oracle: the observation equals the map before or the map after the writer; non-trivial = more than 128 keys"},
 		genBig, runBig)
 }
+
+// ---- large populations that shrink: a store that once held thousands of keys is emptied almost completely
+// (internal rebuilding or shrinking of the map happens, if at all, here) while another thread works on keys
+// of its own. Only that thread touches its keys, so every one of its reads has exactly one correct answer.
+
+type popCase struct {
+	N      int // initial population
+	Keep   int // keys that survive
+	Chunks int // the shrinking thread uses this many Delete calls (the last keys one at a time when Chunks == 0)
+	Rounds int // Set/Get rounds of the private thread
+	Slots  []conc.Slot
+}
+
+func genPop(t *rapid.T) popCase {
+	return popCase{N: rapid.SampledFrom([]int{300, 1023, 1024, 1025, 1100, 2048, 4100}).Draw(t, "n"), Keep: rapid.SampledFrom([]int{0, 1, 8, 100, 255, 256, 257}).Draw(t, "keep"),
+		Chunks: rapid.IntRange(0, 5).Draw(t, "chunks"), Rounds: rapid.IntRange(1, 6).Draw(t, "rounds"), Slots: conc.GenSlots(t, 2, 14)}
+}
+
+func runPop(c popCase, r *pb.Rec) error {
+	if c.N < 1 || c.N > 10000 || c.Keep < 0 || c.Chunks < 0 || c.Chunks > 16 || c.Rounds < 1 || c.Rounds > 16 {
+		return nil
+	}
+	if c.Keep > c.N {
+		c.Keep = c.N
+	}
+	conc.Reset()
+	s := newKV(kvCase{})
+	for k := 0; k < c.N; k++ {
+		s.Set(k, 1)
+	}
+	const priv, privNx, privDel = 1000001, 1000002, 1000003
+	var doomed []int
+	for k := c.Keep; k < c.N; k++ {
+		doomed = append(doomed, k)
+	}
+	shrinker := func() {
+		if c.Chunks == 0 {
+			cut := len(doomed) - 40
+			if cut < 0 {
+				cut = 0
+			}
+			s.Delete(doomed[:cut]...)
+			for _, k := range doomed[cut:] {
+				s.Delete(k)
+			}
+			return
+		}
+		per := (len(doomed) + c.Chunks - 1) / c.Chunks
+		for i := 0; i < len(doomed); i += per {
+			s.Delete(doomed[i:min(i+per, len(doomed))]...)
+		}
+	}
+	var bad error
+	fail := func(f string, a ...any) {
+		if bad == nil {
+			bad = fmt.Errorf(f, a...)
+		}
+	}
+	private := func() {
+		for i := 1; i <= c.Rounds; i++ {
+			s.Set(priv, i)
+			if v, ok := s.Get(priv); !ok || v != i {
+				fail("thread B: Get(own key) = %d,%v right after its own Set(own key, %d) returned; nobody else touches that key (population %d shrinking to %d)", v, ok, i, c.N, c.Keep)
+			}
+			switch i {
+			case 1:
+				if !s.SetNx(privNx, 7) {
+					fail("thread B: SetNx on its own absent key returned false")
+				}
+			case 2:
+				if !s.Has(privNx) {
+					fail("thread B: its own key set by SetNx in the previous round is gone (population %d shrinking to %d)", c.N, c.Keep)
+				}
+				s.Set(privDel, 1)
+			case 3:
+				s.Delete(privDel)
+			default:
+				if s.Has(privDel) {
+					fail("thread B: a key it deleted itself is back (population %d shrinking to %d)", c.N, c.Keep)
+				}
+			}
+		}
+	}
+	res := conc.RunSlots([]func(){shrinker, private}, c.Slots, 20000)
+	if res.Budget {
+		r.Class("INCONCLUSIVE: step budget exhausted")
+		return nil
+	}
+	if res.Err != nil {
+		return res.Err
+	}
+	if bad != nil {
+		return bad
+	}
+	want := map[int]int{priv: c.Rounds}
+	for k := 0; k < c.Keep; k++ {
+		want[k] = 1
+	}
+	want[privNx] = 7
+	if c.Rounds == 2 {
+		want[privDel] = 1
+	}
+	if s.Len() != len(want) {
+		return fmt.Errorf("after both threads finished: Len = %d, want %d (population %d shrunk to %d, private keys of thread B)", s.Len(), len(want), c.N, c.Keep)
+	}
+	for k, v := range want {
+		if g, ok := s.Get(k); !ok || g != v {
+			return fmt.Errorf("after both threads finished: Get(%d) = %d,%v want %d", k, g, ok, v)
+		}
+	}
+	r.ClassIf(c.N >= 1024 && c.Keep*4 < c.N, "population >= 1024 shrunk below a quarter")
+	r.NonTrivialIf(c.N >= 1024)
+	return nil
+}
+
+func init() {
+	pb.Register("safekv_big_population", pb.Options{Base: 300, Required: []string{"population >= 1024 shrunk below a quarter"},
+		Rule: "a store of 300..4100 keys is shrunk to 0..257 keys by one thread (one Delete call, several, or the last 40 keys one by one) while another thread does Set/Get/SetNx/Has/Delete on three keys of its own, under generated schedules of the lock-level scheduling points; oracle: the second thread reads its own writes (nobody else touches its keys), final content and Len; non-trivial = population >= 1024"},
+		genPop, runPop)
+}
